@@ -14,7 +14,8 @@ def check(ctx):
         "sweep exists under cancelable=false, the stale list is released, and Reporter::report is reached on every "
         "path with the vector all releases wrote to; R7 span sets and commands are not Clone and are moved/drained "
         "(at most once); R8 the collector thread loops over handle_commands with a sleep fed by report_interval, and "
-        "flush() runs one cycle on a joined thread.")
+        "flush() runs one cycle on a joined thread; R9 Config::default() is the non-cancelable configuration and the builder "
+        "methods set exactly the field they name.")
     ctx.not_decided = ("delivery for every interleaving of producer pushes with the sequential drain; the 'about one "
                        "report interval' latency; memory ordering inside rtrb; loss when the ring is full (C09).")
     facts = ctx.facts("E")
